@@ -226,6 +226,72 @@ def check_tables(ctx, which):
     ctx.count("branch", "relation-unit-table", len(choices))
 
 
+# ------------------------------------------------------------------------------------------------ API re-evaluation histories
+def gen_api_cases(ctx):
+    """the same in-memory trajectory objects (pose matrices materialised) associated and evaluated by main_ape.ape()
+    several times with different planes / relations"""
+    r = ctx.rng
+    for _ in range(12 if not ctx.thorough else 150):
+        data = gen_traj_pair(r, r.randint(6, 14), "tum", r.choice([0.0, 100.0]), 0.0)
+        evals = []
+        for _ in range(r.randint(2, 4)):
+            if r.random() < 0.65:
+                evals.append({"plane": r.choice(["xy", "xz", "yz"]), "rel": r.choice(["trans_part", "point_distance"])})
+            else:
+                evals.append({"plane": None, "rel": r.choice(["trans_part", "angle_rad", "rot_part", "full", "angle_deg"])})
+        yield {"kind": "api2", "which": "ape", "data": data, "evals": evals}
+
+
+def build_originals(data):
+    from evo.core.trajectory import PoseTrajectory3D
+    ref = PoseTrajectory3D(poses_se3=[mc.pose12_to_np(p) for p in data["ref12"]], timestamps=np.array(data["ref_stamps"]))
+    est = PoseTrajectory3D(poses_se3=[mc.pose12_to_np(p) for p in data["est12"]], timestamps=np.array(data["est_stamps"]))
+    return ref, est
+
+
+def one_api_eval(ref_o, est_o, ev):
+    from evo import main_ape
+    from evo.core import sync
+    from evo.core.trajectory import Plane
+    with mc.quiet():
+        r, e = sync.associate_trajectories(ref_o, est_o, 0.01, 0.0)
+        res = main_ape.ape(r, e, mc.pose_relation(ev["rel"]), project_to_plane=Plane(ev["plane"]) if ev["plane"] else None)
+    return [float(v) for v in res.np_arrays["error_array"]], [float(t) for t in r.timestamps], [float(t) for t in e.timestamps]
+
+
+def evaluate_api(ctx, case):
+    from props import C01 as P1
+    data = case["data"]
+    ref_o, est_o = build_originals(data)
+    for k, ev in enumerate(case["evals"]):
+        try:
+            vals, rs, es = one_api_eval(ref_o, est_o, ev)                      # the same originals, again and again
+            fvals, frs, fes = one_api_eval(*build_originals(data), ev)          # fresh objects from the same numbers
+        except Exception as e:  # noqa
+            ctx.mismatch(case, f"evaluation {k} raised {type(e).__name__}", str(e)[:100], None)
+            break
+        if vals != fvals or rs != frs or es != fes:
+            ctx.mismatch(case, f"evaluation {k} ({ev}) of re-used trajectory objects differs from the evaluation of fresh objects",
+                         vals[:5], fvals[:5])
+        # oracle from the pristine numbers: pairs by stamp, in-plane distance / textbook definition without projection
+        ri = [data["ref_stamps"].index(t) for t in frs]
+        ei = [data["est_stamps"].index(t) for t in fes]
+        keep = {"xy": (3, 7), "xz": (3, 11), "yz": (7, 11), None: (3, 7, 11)}[ev["plane"]]
+        for j, (a, b) in enumerate(zip(ri, ei)):
+            pr, pe = mc.F12(data["ref12"][a]), mc.F12(data["est12"][b])
+            if ev["rel"] in ("trans_part", "point_distance"):
+                want = mc.fsqrt(sum((pe[c] - pr[c]) ** 2 for c in keep))
+            else:
+                want = P1.textbook_ape(ev["rel"], pr, pe)
+            tol = 64 * mc.tolerance(ev["rel"], [data["ref12"][a], data["est12"][b]], want)
+            if j >= len(vals) or not abs(vals[j] - want) <= tol:
+                ctx.fail(case, "api-reevaluation-value-equals-definition",
+                         f"evaluation {k} ({ev}): value {j} is {vals[j] if j < len(vals) else None!r}, definition on the given poses {want!r}")
+                break
+        ctx.count("branch", "api-reevaluation:" + str(ev["plane"]))
+    ctx.record(case, True)
+
+
 # ------------------------------------------------------------------------------------------------ files, argv
 def write_files(case, d):
     data, fmt = case["data"], case["fmt"]
@@ -720,6 +786,10 @@ def traj_text(traj):
 
 
 def evaluate(ctx, cases, which):
+    for c in cases:
+        if c["kind"] == "api2":
+            evaluate_api(ctx, c)
+    cases = [c for c in cases if c["kind"] == "cli"]
     if not cases:
         return
     prop = "C01" if which == "ape" else "C02"
